@@ -28,6 +28,7 @@ type lcPlan struct {
 	fbOK    bool
 	postAct int // >= 0 action, -1 error
 	pay     int // payload kind of the values prep / exec / fallback return (see payload)
+	sameErr bool // every failing attempt returns the SAME error value
 }
 
 // payload kinds: 0 opaque token, 1 nil, 2 a non-error Result holding a token, 3 a Result
@@ -72,7 +73,23 @@ func (b *sb) lifecycle(x int, d NodeDef, p lcPlan) {
 	}
 	if d.Exec != "absent" {
 		var rs []Resp
-		if p.k > 0 {
+		if p.sameErr {
+			// one error value for all failing attempts
+			e := b.errID()
+			n := p.extra
+			if p.k > 0 {
+				n = p.k - 1
+			}
+			for i := 0; i < n; i++ {
+				rs = append(rs, rErr(e))
+			}
+			if p.k > 0 {
+				rs = append(rs, rOk(b.payload(p.pay)))
+				b.script(x, "exec", 0, rs, rOk(b.tok()))
+			} else {
+				b.script(x, "exec", 0, rs, rErr(e))
+			}
+		} else if p.k > 0 {
 			for i := 1; i < p.k; i++ {
 				rs = append(rs, rErr(b.errID()))
 			}
@@ -233,12 +250,19 @@ func genC02(r *rng, tier string, st *stats) []taggedScen {
 					b.script(x, "prep", 0, []Resp{rOk(b.tok())}, rOk(b.tok()))
 					var rs []Resp
 					firstOK := 0
+					// every third vector: all failing attempts return one and the same error value
+					same := 0
+					if vec%3 == 1 {
+						same = b.errID()
+					}
 					for i := 0; i < L; i++ {
 						if vec&(1<<i) != 0 {
 							rs = append(rs, rOk(b.tok()))
 							if firstOK == 0 {
 								firstOK = i + 1
 							}
+						} else if same != 0 {
+							rs = append(rs, rErr(same))
 						} else {
 							rs = append(rs, rErr(b.errID()))
 						}
